@@ -92,7 +92,7 @@ class Setup:
         blocks = []
         for w, x in zip(weights, self.R):
             d = x.shape[-1]
-            if d == 1: w = w.reshape(tuple(w.shape) + (1, 1))
+            if d == 1 and tuple(w.shape[-2:]) != (1, 1): w = w.reshape(tuple(w.shape) + (1, 1))
             lead = x.shape[:-1]
             wb = w.expand(*lead, d, d) if tuple(w.shape[:-2]) != tuple(lead) else w
             wb = wb.reshape(-1, d, d)
@@ -120,16 +120,18 @@ def check_update(env, S_, before_exp):
         env.eq(f'parameter {n} ({k}) updated as documented', raw(p), e)
 
 
-WEIGHTS = {'none': None, 'RxR': (3, 3), 'NxRxR': (2, 3, 3)}
+WEIGHTS = {'none': ((2, 3), None), 'RxR': ((2, 3), (3, 3)), 'NxRxR': ((2, 3), (2, 3, 3)),
+           'suffix_NxRxR': ((2, 2, 2), (2, 2, 2)),      # weight batch is a proper suffix of the residual batch (row-major tiling)
+           'N_1x1': ((2, 3, 1), (3, 1, 1))}             # residual items of size 1: documented N*R*R with R = 1
 
-for wname, wshape in WEIGHTS.items():
-    def mk(wname=wname, wshape=wshape):
+for wname, (rshape, wshape) in WEIGHTS.items():
+    def mk(wname=wname, wshape=wshape, rshape=rshape):
         @obligation(f'C07.GN.step.weight_{wname}', functions=[f'{OPT}:GaussNewton.step', f'{OPT}:RobustModel.normalize_RWJ',
                                                                f'{OPT}:RobustModel.flatten_row_jacobian', f'{OPT}:RobustModel.residuals',
                                                                f'{OPT}:_Optimizer.update_parameter', f'{LT}:SE3Type.add_'], max_paths=16)
         def gn(env):
             T = env.T
-            S_ = Setup(env, [(2, 3)], [('p', 'euclid'), ('X', 'SE3')])
+            S_ = Setup(env, [rshape], [('p', 'euclid'), ('X', 'SE3')])
             opt = S_.optm.GaussNewton(S_.model, solver=S_.solver)
             S_.install(opt)
             object.__setattr__(opt.model, 'loss', lambda *a, **k: T.zeros(()) if not env.sym else T.tensor(0))
